@@ -800,7 +800,7 @@ func c05HeadRecord(c *eng.Ctx, r *eng.Report) {
 		for i, st := range stores {
 			key := fmt.Sprintf("head-record:%s#%d", name, i)
 			// start-up: the pointer is loaded from the record
-			if v := st.(*ssa.Store).Val; strings.Contains(eng.Desc(v), "QueryBlockHeaderByHeight") || strings.Contains(eng.Desc(v), "bcurrent") {
+			if v := st.(*ssa.Store).Val; strings.Contains(eng.Desc(v), "bcurrent") {
 				r.Pass(rule, key, c.Pos(st.Pos()), "head pointer loaded from the head record")
 				n++
 				continue
@@ -827,6 +827,37 @@ func c05HeadRecord(c *eng.Ctx, r *eng.Report) {
 						ok = false
 					}
 				}
+			}
+			// a removal moves the head to the removed block's parent — found by the parent link, not by height arithmetic
+			// (heights follow casting slots and may skip)
+			if strings.HasSuffix(name, ").remove") || strings.HasSuffix(name, ").removeBlock") {
+				v := st.(*ssa.Store).Val
+				viaParent := false
+				var walk func(x ssa.Value, d int)
+				seenV := map[ssa.Value]bool{}
+				walk = func(x ssa.Value, d int) {
+					if x == nil || d > 10 || seenV[x] {
+						return
+					}
+					seenV[x] = true
+					if call, isC := x.(*ssa.Call); isC {
+						for _, a := range call.Call.Args {
+							if strings.HasSuffix(eng.Desc(a), ".PreHash") {
+								viaParent = true
+							}
+						}
+					}
+					if in, isI := x.(ssa.Instruction); isI {
+						var ops []*ssa.Value
+						for _, o := range in.Operands(ops) {
+							if *o != nil {
+								walk(*o, d+1)
+							}
+						}
+					}
+				}
+				walk(v, 0)
+				r.Check(viaParent, rule, fmt.Sprintf("new-head-is-parent:%s#%d", name, i), c.Pos(st.Pos()), "after a removal the head is the block looked up by the removed block's PreHash", name+" sets the head after a removal to "+eng.Desc(v)+", which is not looked up through the removed block's parent link (PreHash): heights follow casting slots, so the block at height-1 may not exist or may not be the parent — the removal then deletes the block from every index and returns without moving the head, leaving a recorded head that is in no index")
 			}
 			r.Check(ok, rule, key, c.Pos(st.Pos()), "the head record is written before the pointer moves or on every path after it", name+" moves the head pointer (blockChain.latestBlock) on a path that does not write the head record (heightDB[latestBlockKey]): pointer and record disagree until some later write, and no intent mark covers that window — a crash there leaves a recorded head that the indexes no longer contain")
 		}
